@@ -2,7 +2,7 @@
    Every theorem is proved in coq/C20/Proofs*.v; this file only restates them and prints their assumptions.
    The model (C20/Model.v) mirrors the nostd headers; the SPEC (C20/Spec.v) states what the std counterparts do. *)
 From V Require Import C20.Glue C20.ProofsPtrBase C20.ProofsPtrOps C20.ProofsPtr C20.ProofsPtrSpec
-                      C20.ProofsSV C20.ProofsSVSpec C20.ProofsVar C20.ProofsMeets.
+                      C20.ProofsSV C20.ProofsSVSpec C20.ProofsVar C20.ProofsChain C20.ProofsMeets.
 From Coq Require Import Permutation.
 
 (* string_view::compare is the unsigned lexicographic order: a total order, consistent with == and < > *)
@@ -112,6 +112,32 @@ Theorem function_ref_application : forall st k a b, f_bound st = Some k -> k < 3
   f_bound (fst (fapply st k a b)) = Some k.
 Proof. exact function_ref_application_all. Qed.
 Print Assumptions function_ref_application.
+
+(* a copy of a function_ref refers to the callable its source referred to when the copy was made: empty source => empty
+   copy; re-binding or destroying the source afterwards does not change what the copy calls *)
+Theorem function_ref_copy : forall st k m, f_bound st = Some k -> m < 3 ->
+  let st1 := fst (fexec st (FCopy m)) in
+  f_copy st1 = Some k /\
+  snd (fexec st1 FBoolC) = [tbool (fcallable k)] /\
+  (forall k', f_copy (fst (fexec st1 (FBind k'))) = Some k) /\
+  f_copy (fst (fexec st1 FDrop)) = Some k /\
+  (forall a b, fexec st1 (FCallC a b) = fcall_via st1 (Some k) a b) /\
+  (forall k' a b, k' < 5 -> snd (fexec (fst (fexec st1 (FBind k'))) (FCallC a b)) = snd (fexec st1 (FCallC a b))).
+Proof. exact function_ref_copy_all. Qed.
+Print Assumptions function_ref_copy.
+
+(* chains of self-referential nodes (a handle that is a member of a pointee is source / target of move, reset, swap;
+   unique_ptr or shared_ptr links): for EVERY operation sequence destroyed, head-reachable and aux-reachable nodes are
+   disjoint and repetition free, together exactly the nodes created, the destruction log only grows, and when both
+   roots go every node has been destroyed exactly once *)
+Theorem chain_exactly_one_destruction : forall sh ops,
+  let st := crun_state sh ops in
+  NoDup (c_log st ++ c_hd st ++ c_aux st) /\
+  (forall o, In o (c_log st ++ c_hd st ++ c_aux st) <-> o < c_nxt st) /\
+  (forall op, exists D, c_log (cnext sh st op) = c_log st ++ D) /\
+  Permutation (c_log (cend st)) (seq 0 (c_nxt st)).
+Proof. exact chain_exactly_one_destruction_all. Qed.
+Print Assumptions chain_exactly_one_destruction.
 
 (* the central theorem: on every well-formed case the SPEC checker accepts the model's observation *)
 Theorem model_meets_spec : forall l c, parse_case l = Some c -> wf_case c -> run_spec l (run_model l) = [].
